@@ -35,7 +35,15 @@ fn cfg() -> rustic_core::repofile::ConfigFile {
 fn hot_complete(raw: &RawKey, cold: &Store, hot: &Store) -> Result<(), (String, String)> {
     for (t, id, data) in &cold.files {
         match t {
-            FileType::Config => {}
+            // the cold store is a complete repository of its own: its configuration is not marked hot
+            // (a cold store marked hot cannot be opened alone), the hot one's is
+            FileType::Config => {
+                if let Ok(j) = vkit::decode::open_json(raw, data) {
+                    if j["is_hot"].as_bool() == Some(true) {
+                        return Err(("C16/cold-config-marked-hot".into(), "the configuration stored in the cold store is marked `is_hot`: the cold store cannot be opened on its own".into()));
+                    }
+                }
+            }
             FileType::Key | FileType::Snapshot | FileType::Index => match hot.get(*t, id) {
                 None => return Err((format!("C16/hot-incomplete/{}", ft_name(*t)), format!("{} {} is listed by the cold store but missing in the hot store", ft_name(*t), &hex_id(id)[..8]))),
                 Some(h) if h != data => return Err((format!("C16/hot-differs/{}", ft_name(*t)), format!("{} {} differs between hot and cold", ft_name(*t), &hex_id(id)[..8]))),
